@@ -271,7 +271,10 @@ pub fn cli_binary() -> PathBuf {
 struct Sandbox(PathBuf);
 impl Sandbox {
     fn new(tag: u64) -> Result<Self, Violation> {
-        let p = verif_dir().join("sim/sandbox").join(format!("c12-{}-{:016x}", std::process::id(), tag));
+        // unique per process and per call (two concurrent runs must never share a directory)
+        static NEXT: std::sync::atomic::AtomicU64 = std::sync::atomic::AtomicU64::new(0);
+        let n = NEXT.fetch_add(1, std::sync::atomic::Ordering::Relaxed);
+        let p = verif_dir().join("sim/sandbox").join(format!("c12-{}-{}-{:016x}", std::process::id(), n, tag));
         std::fs::create_dir_all(&p).map_err(|e| v("harness", format!("sandbox: {}", e)))?;
         Ok(Sandbox(p))
     }
